@@ -1,0 +1,14 @@
+//go:build verif
+
+package standard
+
+import (
+	consensusclient "github.com/attestantio/go-eth2-client"
+)
+
+// VerifC12SetValidatorsProvider sets the validators provider of a Service built by NewForVerifC12,
+// so that UnblindBlock (which looks up the proposer's public key, then its proposer configuration
+// without an account) can be driven.  Only compiled with the "verif" build tag.
+func (s *Service) VerifC12SetValidatorsProvider(provider consensusclient.ValidatorsProvider) {
+	s.validatorsProvider = provider
+}
